@@ -725,6 +725,35 @@ func genC12(o *hx.Out, tier string) {
 		}
 		o.Add("initialisation outcome agnostic: "+on.name, verdict, "expect", "ok", "odd-node "+on.name)
 	}
+	// ---- client endpoints whose address can never be reached (a UDP client with an IPv6 literal under
+	// udp4, a TCP client to a closed port) beside a custom endpoint: Close returns while they retry ----
+	for _, ep := range []gomavlib.EndpointConf{
+		gomavlib.EndpointUDPClient{Address: "[::1]:5600"},
+		gomavlib.EndpointTCPClient{Address: "127.0.0.1:1"},
+		gomavlib.EndpointUDPClient{Address: "256.1.1.1:5600"},
+	} {
+		p := scn.NewPipe("beside")
+		verdict := "ok"
+		node, err := gomavlib.NewNode(gomavlib.NodeConf{Endpoints: []gomavlib.EndpointConf{gomavlib.EndpointCustom{ReadWriteCloser: p}, ep},
+			Dialect: d, OutVersion: gomavlib.V2, OutSystemID: 10, HeartbeatDisable: true})
+		if err == nil {
+			col := scn.NewCollector(node, 0, false)
+			time.Sleep(150 * time.Millisecond) // a few failed attempts
+			if !scn.CloseWithin(node, 8*time.Second) {
+				verdict = "CLOSE-DID-NOT-RETURN"
+			} else {
+				select {
+				case <-col.Done:
+				case <-time.After(3 * time.Second):
+					verdict = "EVENTS-NOT-CLOSED"
+				}
+			}
+			if l := scn.Leaks(); l != "" && verdict == "ok" {
+				verdict = "GOROUTINE-LEAK " + l
+			}
+		}
+		o.Add("close while a client endpoint cannot connect", verdict, "expect", "ok", fmt.Sprintf("unreachable %T %v", ep, ep))
+	}
 	// ---- stream requests enabled and the same ArduPilot sender heard several times (and other senders
 	// after it) before Close: Close returns, nothing is left ----
 	{
